@@ -657,7 +657,8 @@ def _tuple_key_conds_(obj, key):
         conds, ok = [], True
         for a, b in zip(key, kk):
             a = a._s if isinstance(a, StrBase) else a
-            if isinstance(a, SymStr) and not isinstance(b, str):
+            b = b._s if isinstance(b, StrBase) else b
+            if isinstance(a, SymStr) and not isinstance(b, (str, SymStr)):
                 ok = False
                 break
             r = a == b
@@ -690,6 +691,12 @@ def contains(container, item):
         return item in container
     if isinstance(item, StrBase):
         item = item._s
+    if isinstance(container, range) and isinstance(item, SymInt):
+        lo, hi, st = container.start, container.stop, container.step
+        if st > 0:
+            c = z3.And(item.e >= lo, item.e < hi)
+            return mkbool(z3.And(c, (item.e - lo) % st == 0) if st != 1 else c)
+        raise Unmodelled("`in` on a descending range with symbolic operand")
     if is_sym(item) or is_sym(container) or (isinstance(item, tuple) and deep_sym(item)):
         if isinstance(container, (set, frozenset, list, tuple)):
             zs = []
@@ -752,9 +759,14 @@ def is_not(a, b):
 
 
 # ---------------------------------------------------------------- iteration (set order = fork; nondeterminism monitor)
+_SET_REVERSE = bool(__import__("os").environ.get("SX_SET_REVERSE"))
+
+
 def iter_(it):
     if isinstance(it, (set, frozenset)):
         items = list(it)
+        if _SET_REVERSE:
+            items.reverse()  # a second legal iteration order of every set (hash-seed independence, C13/C18)
         if len(items) <= 1:
             return items
         ctx.nondet.append(("set-iteration", len(items)))
@@ -796,8 +808,9 @@ def setitem_(obj, key, value):
     if ctx.undo is not None:
         ctx.undo.note_container(obj)
     if is_sym(key) or (isinstance(key, tuple) and deep_sym(key)):
-        if isinstance(obj, dict) and not (isinstance(key, StrBase) and type(key).__hash__ is not StrBase.__hash__ or isinstance(key, StrBase)):
-            raise Unmodelled("dict store with symbolic key")
+        if isinstance(obj, dict) and isinstance(key, (SymInt, SymBool)):
+            raise Unmodelled("dict store with symbolic number as key")
+        # symbolic strings / value objects hash to a constant: the real dict then decides membership by == (engine forks)
     obj[key] = value
 
 
